@@ -14,6 +14,7 @@ CONSTANTS
   MaxInVain = 2
   AtomicNeg = TRUE
   PopAny = FALSE
+  MaxDangle = 0
   Bug = "TaggedAny"
 INVARIANT TypeOK
 INVARIANT Antecedent
